@@ -70,7 +70,7 @@ PROPS = {
     'C17': dict(units=['cls'], level='proof'),
     'C18': dict(units=['ctl'], level='proof',
                 not_covered=['control_socket.rs line framing (tokio::select! loop)', 'concurrent setters and snapshot readers (atomics sequentialised)', 'serde_json itself (parsing, typed accessors, Response::to_json)', 'subscription handlers']),
-    'C19': dict(units=['reload', 'events'], level='proof'),
+    'C19': dict(units=['reload', 'events', 'conns'], level='proof'),
     'C15': dict(
         kani=[K('reg_packets_layout', 'C15.kani.reg1_reg2_are_258_bytes_type_plus_id'),
               K('keepalive_roundtrip', 'C15.kani.keepalive_decodes_back', note='8-iteration loop fully unwound (unwind 9, unwinding assertions on)'),
